@@ -208,16 +208,25 @@ theorem floatLex_stop {s : Str} {l : FloatLex} (h : floatLex s = some l) :
     ∀ c, (s.drop l.len).head? = some c → isDecDigit c = false :=
   (floatLex_spec h).2.2.2.2.1
 
-/-- a match that covers the whole text and has a fraction is found again in front of any
-continuation that does not start with a digit -/
+theorem dotDigit_false {rest : Str} (h : dotDigit rest = false) : ∀ d r, rest = '.' :: d :: r → isDecDigit d = false := by
+  intro d r hr
+  subst hr
+  simpa [dotDigit] using h
+
+/-- a match that covers the whole text is found again in front of any continuation that does not
+start with a digit and — when the match has no fraction — does not go on with `.` and a digit -/
 theorem floatLex_append {u : Str} {l : FloatLex} (h : floatLex u = some l) (hfull : l.len = u.length)
-    (hfp : l.fp ≠ []) (rest : Str) (hr : ∀ c, rest.head? = some c → isDecDigit c = false) :
+    (rest : Str) (hr : ∀ c, rest.head? = some c → isDecDigit c = false)
+    (hfp : l.fp ≠ [] ∨ dotDigit rest = false) :
     floatLex (u ++ rest) = some l := by
   obtain ⟨h1, h2, h3, hu, _⟩ := floatLex_spec h
   have hnil : u.drop l.len = [] := by rw [hfull]; exact List.drop_length
   rw [hnil, List.append_nil] at hu
   rw [hu]
-  exact floatLex_build l rest h1 h2 h3 ⟨hr, fun hf => absurd hf hfp⟩
+  refine floatLex_build l rest h1 h2 h3 ⟨hr, fun hf => ?_⟩
+  rcases hfp with hne | hdd
+  · exact absurd hf hne
+  · exact dotDigit_false hdd
 
 /-- a whole-text match of a text with a decimal point has a fraction -/
 theorem floatLex_fp_of_dot {u : Str} {l : FloatLex} (h : floatLex u = some l) (hfull : l.len = u.length)
